@@ -1,5 +1,6 @@
 \* suspend_point<int> and suspend_point<void> mixed in three slots, all operations, both modes;
-\* histories of at most MaxSteps operations (+ destructions)
+\* histories of at most MaxSteps operations; reads of the attached value (conversion, const conversion,
+\* co_await) in every order; replayed with payload int and with a move-tracking payload
 SPECIFICATION Spec
 CONSTANTS
   MaxObj = 3
@@ -7,8 +8,9 @@ CONSTANTS
   MaxSteps = 4
   Modes = {"normal", "coro"}
   Typed = TRUE
-  Ops = {"ConstructEmpty", "ConstructH", "MoveConstruct", "AddHandle", "AddFill", "MergeShl", "MoveAssign", "Pop", "Clear", "Destroy", "CoAwait", "Pause"}
+  Ops = {"ConstructEmpty", "ConstructH", "MoveConstruct", "AddHandle", "AddFill", "MergeShl", "MoveAssign", "Pop", "Clear", "Destroy", "CoAwait", "Pause", "Read"}
+  Fixed = TRUE
   Targets = {}
-INVARIANTS TypeOK RepOK Conservation NoDoubleResume NoLeak
-PROPERTIES InlineNoAlloc MovedFromIsEmpty EmptyResumesNothing ValuePreserved ResumeOrder QueueFIFO
+INVARIANTS TypeOK RepOK NoDoubleResume Conservation NoLeak
+PROPERTIES InlineNoAlloc MovedFromIsEmpty EmptyResumesNothing ValuePreserved ReadsAgree ResumeOrder QueueFIFO
 CHECK_DEADLOCK FALSE
